@@ -372,9 +372,10 @@ func init() {
 		}
 	}
 	gridCheck("C03", []func() GridDriver{
-		func() GridDriver { return NewAuthGrid(1) }, func() GridDriver { return NewAuthGrid(3) },
-		func() GridDriver { return NewAuthGrid(4) }, func() GridDriver { return NewAuthGrid(7) },
-	}, 40, 200, nil)
+		func() GridDriver { return NewAuthGrid(1) }, func() GridDriver { return NewAuthGrid(2) }, func() GridDriver { return NewAuthGrid(3) },
+		func() GridDriver { return NewAuthGrid(4) }, func() GridDriver { return NewAuthGrid(5) }, func() GridDriver { return NewAuthGrid(6) },
+		func() GridDriver { return NewAuthGrid(7) },
+	}, 25, 120, nil)
 	{
 		inner := Registry["C03"]
 		Registry["C03"] = &Check{
@@ -413,7 +414,7 @@ func init() {
 						panic(r)
 					}
 				}()
-				for _, n := range []int{1, 3, 4, 7} {
+				for _, n := range []int{1, 2, 3, 4, 5, 6, 7} {
 					w := NewAuthGrid(n).Build()
 					w.Close()
 				}
@@ -436,7 +437,8 @@ func init() {
 	}
 	gridCheck("C16", append(c16grids, []func() GridDriver{
 		func() GridDriver { return NewUpGrid() },
-		func() GridDriver { return NewGateGrid(1) }, func() GridDriver { return NewGateGrid(3) }, func() GridDriver { return NewGateGrid(4) }, func() GridDriver { return NewGateGrid(7) },
+		func() GridDriver { return NewGateGrid(1) }, func() GridDriver { return NewGateGrid(2) }, func() GridDriver { return NewGateGrid(3) }, func() GridDriver { return NewGateGrid(4) },
+		func() GridDriver { return NewGateGrid(6) }, func() GridDriver { return NewGateGrid(7) },
 	}...), 30, 150, nil)
 	{
 		inner := Registry["C16"]
